@@ -634,6 +634,9 @@ class Verifier(Exec):
             if rng[0] == 0:
                 return emod(r, I(m))
             return sub(emod(add(r, I(-rng[0])), I(m)), I(-rng[0]))
+        if self.spec is not None and any(bn in x.replace(',', ' ').split() or short in x.replace(',', ' ').split() for x in self.spec.opts.get('mathint', [])):
+            self.ctx.notes.append('%s: %s arithmetic/conversions treated as mathematical (declared by the contract: %s)' % (short_fn(self.fname), short, '; '.join(self.spec.opts['mathint'])))
+            return r
         if bn in S.WIDE and not self.check_wide_ovf:
             self.ctx.notes.append('64-bit %s arithmetic treated as mathematical' % bn)
             return r
@@ -1885,6 +1888,8 @@ class Verifier(Exec):
     def store_heaps(self, tid):
         """heap names a store of a value of type tid can touch (as element, field or object)"""
         names = set()
+        if self.kind(tid) == 'array' and not self.is_scalar(self.U(tid)['elem']):
+            return self.store_heaps(self.U(tid)['elem'])
         try:
             if self.is_scalar(tid) and not self.is_string(tid):
                 names.add(self.hs_name(tid))
